@@ -19,6 +19,8 @@ AUDIT_IMPORTS = ["Props.C04"]
 NS = "Pysersic.Props.C04."
 OBLIGATIONS = [NS + t for t in ["sersic_factor", "mixture_factor", "ratio_depends_on_n_z", "mogComps_form", "hybrid_zero_eq_fourier"]] + \
     ["Pysersic.Props.C02.hybrid_broadening", "Pysersic.Props.C02.gaussPixelTerm_of_z"]
+# kernels whose translated source text (Gen/Kernels.lean) is proved equal to the model kernel this property's theorems are about
+GEN_KERNELS = ["render_sersic_2d", "render_gaussian_pixel_term", "render_gaussian_fourier_term", "sersic1D_cx"]
 MIRRORED_FILES = ["pysersic/rendering.py"]
 ASSUMPTIONS = [
     "every quantitative agreement bound is observed (independent float64 reference: exact b_n, pixel integration with cusp refinement, spatial convolution), not proved",
